@@ -26,7 +26,7 @@ RULE = (
     "grouping-preserving renaming (atoms matched by coordinates). Non-trivial: a table that does NOT already fit; distinct = distinct table+modification."
 )
 ASSUMPTIONS = [
-    "grey zone between the certainly-feasible and certainly-infeasible predicates is not generated",
+    "grey zone between the certainly-feasible and certainly-infeasible predicates is not judged: TER records take serial numbers, one per run of a chain id per model in a written file (strict count) or one per change of chain id (lenient count); feasible = the strict count fits, infeasible = not even the lenient count fits",
     "pandas raises ValueError for unrelated reasons, so a ValueError on a certainly-feasible table is a violation and the refusal oracle relies on the harness's own feasibility decision",
     "trusted: harness mmCIF/PDB emitters and the neutral accessor of C09",
 ]
@@ -92,11 +92,22 @@ def feasibility(atoms):
     for a in atoms:
         chains.setdefault(a["chain"], set()).add((a["resseq"], a["icode"]))
     nch = len(chains)
-    nmodels = len({a["model"] for a in atoms})
     maxres = max(len(v) for v in chains.values())
-    if nch > 62 or len(atoms) > 99999 or maxres > 9999:
+    # TER records take a serial number each. A written file has one TER per run of a chain id within a model; the
+    # most lenient count is one per change of chain id along the table. Feasible for certain when even the strict
+    # count fits, infeasible for certain when even the lenient count does not; in between the statement is silent.
+    runs = changes = 0
+    prev = None
+    for a in atoms:
+        key = (a["model"], a["chain"])
+        if prev is None or key != prev:
+            runs += 1
+            if prev is not None and key[1] != prev[1]:
+                changes += 1
+        prev = key
+    if nch > 62 or len(atoms) + changes > 99999 or maxres > 9999:
         return "infeasible"
-    if nch <= 62 and len(atoms) + nch * nmodels <= 99999 and maxres <= 9999:
+    if nch <= 62 and len(atoms) + runs <= 99999 and maxres <= 9999:
         return "feasible"
     return "grey"
 
@@ -447,6 +458,18 @@ def oversize_table(spec):
     elif kind == "atoms":
         for k in range(n):
             atoms.append(atom(k + 1, "AA" if k % 2 else "BB", k // 20 + 1, k))
+    elif kind == "atoms-runs":
+        # three chains, each listed in three separate runs (polymer, then its ions, then its waters, as in files
+        # derived from PDB entries): 9 TER records although there are only 3 chains
+        names = ["AA", "BB", "CC"]
+        per = n // 9
+        k = 0
+        for part in range(3):
+            for c in range(3):
+                cnt = per if (part, c) != (2, 2) else n - 8 * per
+                for t in range(cnt):
+                    atoms.append(atom(k + 1, names[c], 1000 * part + t // 20 + 1, k))
+                    k += 1
     else:
         raise HarnessError(kind)
     return atoms
@@ -517,7 +540,8 @@ def plan(tier, seed):
     if tier == "quick":
         specs = [{"kind": "tables", "examples": 50, "seed": seed * 1000 + k} for k in range(14)]
         specs += [{"kind": "oversize", "cases": [["chains", 63]]}, {"kind": "oversize", "cases": [["chains", 62], ["residues", 10000]]},
-                  {"kind": "oversize", "cases": [["residues-icode", 10000]]}, {"kind": "oversize", "cases": [["residues-icode", 9999]]}]
+                  {"kind": "oversize", "cases": [["residues-icode", 10000]]}, {"kind": "oversize", "cases": [["residues-icode", 9999]]},
+                  {"kind": "oversize", "cases": [["atoms-runs", 99995]]}]
         specs += [{"kind": "splitter", "examples": 30, "seed": seed * 1000 + 200 + k} for k in range(4)]
         specs += [{"kind": "unifier", "examples": 20, "seed": seed * 1000 + 300 + k} for k in range(4)]
     else:
@@ -525,7 +549,8 @@ def plan(tier, seed):
         specs += [{"kind": "oversize", "cases": [["chains", 63], ["chains", 70], ["chains", 62]]},
                   {"kind": "oversize", "cases": [["residues", 10000], ["residues", 9999]]},
                   {"kind": "oversize", "cases": [["residues-icode", 10000], ["residues-icode", 10001]]}, {"kind": "oversize", "cases": [["residues-icode", 9999]]},
-                  {"kind": "oversize", "cases": [["atoms", 100000]]}]
+                  {"kind": "oversize", "cases": [["atoms", 100000]]}, {"kind": "oversize", "cases": [["atoms-runs", 99995]]},
+                  {"kind": "oversize", "cases": [["atoms-runs", 99990]]}, {"kind": "oversize", "cases": [["atoms-runs", 99993]]}]
         specs += [{"kind": "splitter", "examples": 300, "seed": seed * 1000 + 200 + k} for k in range(8)]
         specs += [{"kind": "unifier", "examples": 150, "seed": seed * 1000 + 300 + k} for k in range(8)]
     return specs
